@@ -22,7 +22,12 @@ theorem WF_empty : WF World.empty := by
 
 theorem guardOp_WF (bad : Bool) (kind : String) (w w' : World) (h : WF w) (h' : WF w') :
     WF (guardOp bad kind w w').1 := by
-  unfold guardOp; split <;> assumption
+  unfold guardOp; split
+  · assumption
+  · split <;> assumption
+
+theorem bump_WF {w : World} (h : WF w) : WF (bump w) :=
+  ⟨I_use_bump h.use, I_prod_bump h.prod, I_root_bump h.root, I_own_bump h.own, I_key_bump h.key, I_node_bump h.node⟩
 
 /-- a change that leaves every field read by the invariant alone (names of nodes, counters and
 name sets of the authority, const tensors, ...) -/
@@ -180,15 +185,12 @@ theorem registerValue_WF (w : World) (g v : Nat) (h : WF w) : WF (registerValue 
   split
   · exact setAuth_WF _ _ _ ⟨rfl, rfl, rfl, rfl, rfl, rfl⟩ h
   · simp only []
-    have h1 := setAuth_WF w g { w.gr g with
-        vCtr := (uniqueLoop valName (w.gr g).vNames ((w.gr g).vNames.length + 1) (w.gr g).vCtr).2,
-        vNames := addName (w.gr g).vNames
-          (uniqueLoop valName (w.gr g).vNames ((w.gr g).vNames.length + 1) (w.gr g).vCtr).1 }
-      ⟨rfl, rfl, rfl, rfl, rfl, rfl⟩ h
+    have h1 : ∀ c s, WF (w.setGr g { w.gr g with vCtr := c, vNames := s }) :=
+      fun c s => setAuth_WF w g _ ⟨rfl, rfl, rfl, rfl, rfl, rfl⟩ h
     split
-    · exact h1
+    · exact bump_WF (h1 _ _)
     · rename_i hi
-      exact setNamePlain_WF _ _ _ h1 (by simpa using hi)
+      exact setNamePlain_WF _ _ _ (h1 _ _) (by simp at hi; simpa using hi.1)
 
 theorem registerNode_WF (w : World) (g n : Nat) (h : WF w) : WF (registerNode w g n) := by
   unfold registerNode
@@ -240,7 +242,7 @@ theorem resizeOutputs_WF (w : World) (n : Nat) (k : Int) (h : WF w) : WF (resize
     | exact iter_inv WF _ (fun a ha => addOutput_WF a n ha) _ _ h
 
 theorem newValue_WF (w : World) (name : Option String) (h : WF w) : WF (newValue w name).1 :=
-  allocVal_WF _ _ rfl rfl rfl rfl rfl rfl h
+  guardOp_WF _ _ _ _ h (allocVal_WF _ _ rfl rfl rfl rfl rfl rfl h)
 
 theorem newNodeMut_WF (w : World) (opType : String) (name : Option String) (inputs : List (Option Nat))
     (numOutputs : Option Int) (outputs : Option (List Nat)) (h : WF w) :
@@ -293,13 +295,13 @@ theorem atPos_WF (o : Option Nat) (f : Nat → World) (w : World) (h : WF w) (hf
     WF (atPos o f w) := by
   unfold atPos; split
   · exact hf _
-  · exact h
+  · exact bump_WF h
 
 theorem withName_WF (o : Option String) (f : String → World) (w : World) (h : WF w) (hf : ∀ p, WF (f p)) :
     WF (withName o f w) := by
   unfold withName; split
   · exact hf _
-  · exact h
+  · exact bump_WF h
 
 theorem ioMut_WF (w : World) (g : Nat) (k : IOKind) (m : IOMut) (h : WF w) : WF (ioMut w g k m).1 := by
   cases m <;> simp only [ioMut]
@@ -308,7 +310,7 @@ theorem ioMut_WF (w : World) (g : Nat) (k : IOKind) (m : IOMut) (h : WF w) : WF 
   case insert i v => exact guardOp_WF _ _ _ _ h (ioInsert_WF _ _ _ _ _ h)
   case pop i => exact guardOp_WF _ _ _ _ h (atPos_WF _ _ _ h (fun p => ioRemoveAt_WF _ _ _ _ h))
   case remove v => exact guardOp_WF _ _ _ _ h (atPos_WF _ _ _ h (fun p => ioRemoveAt_WF _ _ _ _ h))
-  case clear => exact iter_inv WF _ (fun a ha => ioRemoveAt_WF a _ _ _ ha) _ _ h
+  case clear => exact guardOp_WF _ _ _ _ h (iter_inv WF _ (fun a ha => ioRemoveAt_WF a _ _ _ ha) _ _ h)
   case setItem i v =>
     exact guardOp_WF _ _ _ _ h (atPos_WF _ _ _ h (fun p => ioInsert_WF _ _ _ _ _ (ioRemoveAt_WF _ _ _ _ h)))
   case setSlice start stop step vs =>
@@ -316,11 +318,12 @@ theorem ioMut_WF (w : World) (g : Nat) (k : IOKind) (m : IOMut) (h : WF w) : WF 
     · exact h
     · apply guardOp_WF _ _ _ _ h
       split
-      · exact ioInsertMany_WF _ _ _ _ _ (ioRemoveMany_WF _ _ _ _ h)
+      · exact ioInsertMany_WF _ _ _ _ _ (iter_inv WF _ (fun a ha => ioRemoveAt_WF a _ _ _ ha) _ _ h)
       · exact ioReplaceMany_WF _ _ _ _ _ h
   case delItem i => exact guardOp_WF _ _ _ _ h (atPos_WF _ _ _ h (fun p => ioRemoveAt_WF _ _ _ _ h))
-  case delSlice start stop step => split <;> first | exact h | exact ioRemoveMany_WF _ _ _ _ h
-  case reverse => exact ioReverse_WF _ _ _ h
+  case delSlice start stop step =>
+    split <;> first | exact h | exact guardOp_WF _ _ _ _ h (ioRemoveMany_WF _ _ _ _ h)
+  case reverse => exact guardOp_WF _ _ _ _ h (ioReverse_WF _ _ _ h)
   case iadd vs => exact h
   case imul k => exact h
 
@@ -351,6 +354,7 @@ theorem initMut_WF (w : World) (g : Nat) (m : InitMut) (h : WF w) : WF (initMut 
   case pop key => exact guardOp_WF _ _ _ _ h (initDel_WF _ _ _ h)
   case popitem => exact guardOp_WF _ _ _ _ h (withName_WF _ _ _ h (fun _ => initDel_WF _ _ _ h))
   case clear =>
+    apply guardOp_WF _ _ _ _ h
     apply iter_inv WF _ _ _ _ h
     intro a ha; exact withName_WF _ _ _ ha (fun _ => initDel_WF _ _ _ ha)
   case update kvs => exact initUpdate_WF _ _ _ h
@@ -445,8 +449,9 @@ theorem newGraph_WF (w : World) (inputs outputs nodes inits : List Nat) (h : WF 
   exact allocGraph_WF w h
 
 theorem setConst_WF (w : World) (v : Nat) (lk : Bool) (h : WF w) : WF (setConst w v lk).1 := by
+  apply guardOp_WF _ _ _ _ h
   apply WF_of_same_core _ _ _ h
-  · intro u; simp [setConst, World.val, World.setVal, lget_lset]; split <;> simp_all
+  · intro u; simp [World.val, World.setVal, lget_lset]; split <;> simp_all
   · intro n; exact ⟨rfl, rfl, rfl⟩
   · intro g; exact ⟨rfl, rfl, rfl, rfl, rfl, rfl⟩
 
@@ -468,8 +473,9 @@ theorem step_WF (w : World) (op : Op) (h : WF w) : WF (step w op).1 := by
   case insertAfter g a ns => exact graphInsertAfter_WF _ _ _ _ h
   case insertBefore g a ns => exact graphInsertBefore_WF _ _ _ _ h
   case remove g ns safe => exact graphRemove_WF _ _ _ _ h
-  case sortOk orders => exact sortApply_WF _ _ h
-  case sortCycle => exact h
+  case sortOk orders => exact guardOp_WF _ _ _ _ h (sortApply_WF _ _ h)
+  case sortCycle => exact guardOp_WF _ _ _ _ h h
+  case attrEdit => exact guardOp_WF _ _ _ _ h h
 
 
 /-! ### composite calls -/
@@ -502,8 +508,9 @@ theorem rauwManyChecked_WF (w : World) (vs rs : List Nat) (rgo : Bool) (h : WF w
 theorem setNameIfPlain_WF (w : World) (v : Nat) (s : Option String) (h : WF w) : WF (setNameIfPlain w v s) := by
   unfold setNameIfPlain; split
   · exact h
-  · rename_i hc
-    exact setNamePlain_WF _ _ _ h (by simp at hc; simpa using hc.1)
+  · split
+    · exact bump_WF h
+    · rename_i hc; exact setNamePlain_WF _ _ _ h (by simpa using hc)
 
 theorem renameValues_WF (w : World) (vs : List Nat) (names : List String) (h : WF w) :
     WF (renameValues w vs names).1 := by
@@ -514,14 +521,14 @@ theorem renameValues_WF (w : World) (vs : List Nat) (names : List String) (h : W
     · exact h
     · apply guardOp_WF _ _ _ _ h
       apply foldl_inv WF _ _ _ _ _
-      · intro a p ha; split
+      · intro a p ha; unfold renamePutStep; split
         · exact initPut_WF _ _ _ _ ha
-        · exact ha
+        · exact bump_WF ha
       · apply foldl_inv WF _ (fun a p ha => setNameIfPlain_WF a _ _ ha)
         apply foldl_inv WF _ _ _ _ h
-        intro a p ha; split
+        intro a p ha; unfold renameDelStep; split
         · exact initDel_WF _ _ _ ha
-        · exact ha
+        · exact bump_WF ha
 
 theorem copyInfo_WF : ∀ (ps : List (Nat × Nat)) (w : World), WF w → WF (copyInfo w ps).1
   | [], _, h => h
